@@ -39,9 +39,10 @@ var pppoeServerMAC = net.HardwareAddr{0x02, 0, 0, 0, 0, 0xfe}
 
 func pppoeServerKind() kindDef {
 	return kindDef{
-		name:     "pppoe-server",
-		cfgs:     []string{"no-radius", "radius"},
-		prefixes: func(string) []string { return []string{"PADS", "LCP", "AUTH", "IPCP"} },
+		name: "pppoe-server",
+		cfgs: []string{"no-radius", "radius"},
+		// IPCP-LATE: established, then silent for longer than the idle timeout, then a frame BEFORE the next cleanup tick
+		prefixes: func(string) []string { return []string{"PADS", "LCP", "AUTH", "IPCP", "IPCP-LATE"} },
 		paths: func(cfg, prefix string) []string {
 			// RESTART-x: the client starts over (a second PADR from the same MAC without PADT, e.g. a CPE power
 			// cycle; the new session is brought up to the same prefix), then x ends every session the client was
@@ -267,8 +268,22 @@ func runPPPoEServer(_ *kenv, k kase) (res result) {
 	w.b = &pppClient{name: "bystander", mac: net.HardwareAddr{2, 0, 0, 0, 0, 0x0b}}
 	w.establish(w.b, "IPCP")
 	w.a = &pppClient{name: "victim", mac: net.HardwareAddr{2, 0, 0, 0, 0, 0x0a}}
-	w.establish(w.a, k.Prefix)
+	w.establish(w.a, strings.TrimSuffix(k.Prefix, "-LATE"))
 	w.noteVictim()
+	if strings.HasSuffix(k.Prefix, "-LATE") {
+		// no virtual time has passed so far: the victim's last frame and the cleanup ticker's start are at t=0, ticks
+		// at 30 s, 60 s, ...; the first tick that finds the victim idle is t=150 s. The victim speaks again at t=135 s.
+		for t := time.Duration(0); t < pppoeIdle; t += 30 * time.Second {
+			time.Sleep(30 * time.Second)
+			synctest.Wait()
+			w.b.ident++
+			w.sess(w.b, pppoe.ProtocolLCP, pcp(9, w.b.ident, []byte{0xaa, 0xbb, 0xcc, 0x0b}))
+		}
+		time.Sleep(15 * time.Second)
+		synctest.Wait()
+		w.a.ident++
+		w.sess(w.a, pppoe.ProtocolLCP, pcp(9, w.a.ident, []byte{0xaa, 0xbb, 0xcc, 0x0a}))
+	}
 	h := []string{"session-entry"}
 	if w.aAddr != nil {
 		h = append(h, "pool-address")
@@ -327,7 +342,7 @@ func (w *pppWorld) noteVictim() {
 // restart: the victim's CPE starts over - a new PADR from the same MAC, no PADT for the old session.
 func (w *pppWorld) restart() {
 	w.a = &pppClient{name: "victim", mac: w.a.mac}
-	w.establish(w.a, w.k.Prefix)
+	w.establish(w.a, strings.TrimSuffix(w.k.Prefix, "-LATE"))
 	w.noteVictim()
 }
 
@@ -335,7 +350,7 @@ func (w *pppWorld) nrec() int {
 	if w.rs == nil {
 		return 0
 	}
-	return len(w.rs.records())
+	return w.rs.nAttempts()
 }
 
 func (w *pppWorld) terminate(path string) {
